@@ -466,7 +466,9 @@ def run(ctx, shard):
 def replay(ctx, case):
     # pools are seeded: re-run the shard kind that produced the case (the replay file carries tier and seed)
     ctx.distinct(2)
-    if case.get("kind") == "immut":
+    if "part" in ctx.shard:
+        run(ctx, ctx.shard)      # original shard restored by the runner: the same seeded pools are rebuilt
+    elif case.get("kind") == "immut":
         immut(ctx, 120)
     else:
         laws(ctx, 2)
